@@ -378,6 +378,8 @@ structure HQ2 (cfg : Cfg) (n : Net) (x y : Nat) (stx sty : NetStation) (r q : In
   sty_st : sty.s.st = .listenToken none coll ∨ sty.s.st = .activeIdle none none 0
   qtl : q ≤ tl
   tto : cfg.slot + 3 * cfg.P + cfg.ce 0 + 2 ≤ sty.s.p.tokenLostTimeout
+  ymw : state = .masterWithoutToken → sty.s.st = .activeIdle none none 0 ∧ sty.s.ring.ps = stx.s.p.address ∧
+    sty.s.ring.readyForRing = true
   gx : n.stations[x]? = some stx
   xl : x < n.stations.length
   xs : x < n.bus.seen.length
@@ -476,15 +478,19 @@ theorem hq1_listener {cfg : Cfg} {n : Net} {x y : Nat} {stx sty : NetStation} {r
       unfold markTx
       simp only [StationGap.stamped_p]
       rw [show sty.s.p.bits (11 * 6) = cfg.b66 from hsY.bits 66]
-    obtain ⟨cR, hdr', k1, k2, k3, k4, k5, k6⟩ : ∃ cR : Ctx, dispatch { s := sty.s, apps := sty.apps, rx := [] } now = .ok cR ∧
+    obtain ⟨cR, hdr', k1, k2, k3, k4, k5, k6, k7, k8⟩ : ∃ cR : Ctx, dispatch { s := sty.s, apps := sty.apps, rx := [] } now = .ok cR ∧
         cR.s.online = true ∧ cR.s.p = sty.s.p ∧ cR.rx = [] ∧ cR.s.lastBusActivity = some (now + (cfg.b66 : Nat)) ∧
         cR.tx = some (statusResponseBytes stx.s.p.address sty.s.p.address (listenReport sty.s stx.s.p.address)) ∧
-        (cR.s.st = .listenToken none coll ∨ cR.s.st = .activeIdle none none 0) :=
-      ⟨_, hdr, hsY.son, rfl, rfl, hst', rfl, by
+        (cR.s.st = .listenToken none coll ∨ cR.s.st = .activeIdle none none 0) ∧
+        (sty.s.ring.readyForRing = true → cR.s.st = .activeIdle none none 0) ∧ cR.s.ring = sty.s.ring :=
+      ⟨_, hdr, hsY.son, rfl, rfl, hst', rfl, (by
         show (if sty.s.ring.readyForRing = true then _ else _) = _ ∨ (if sty.s.ring.readyForRing = true then _ else _) = _
         cases sty.s.ring.readyForRing
         · exact .inl rfl
-        · exact .inr rfl⟩
+        · exact .inr rfl), (by
+        intro hrd
+        show (if sty.s.ring.readyForRing = true then _ else _) = _
+        rw [if_pos hrd]), rfl⟩
     obtain ⟨n', hp, hS, hseen⟩ := solo_step hsY hr now hown hlt cR hno.1 hno.2 hdr' (now + (cfg.b66 : Nat)) k1 k2 k3 k4
       (by omega) (fun b hb => by
         rw [k5] at hb
@@ -511,7 +517,16 @@ theorem hq1_listener {cfg : Cfg} {n : Net} {x y : Nat} {stx sty : NetStation} {r
       simp only
       have := h.seens.1
       omega
-    refine ⟨hS, k6, Int.le_refl _, by show _ ≤ cR.s.p.tokenLostTimeout; rw [k2]; exact htto,
+    have hymw : listenReport sty.s stx.s.p.address = .masterWithoutToken → cR.s.st = .activeIdle none none 0 ∧
+        cR.s.ring.ps = stx.s.p.address ∧ cR.s.ring.readyForRing = true := by
+      intro hmw
+      unfold listenReport at hmw
+      split at hmw
+      · rename_i hc
+        rw [k8]
+        exact ⟨k7 hc.1, hc.2.symm, hc.1⟩
+      · cases hmw
+    refine ⟨hS, k6, Int.le_refl _, by show _ ≤ cR.s.p.tokenLostTimeout; rw [k2]; exact htto, hymw,
       by rw [hset, List.getElem?_set_ne h.yx]; exact hs.gx, by rw [hset, List.length_set]; exact hs.xl,
       by rw [hbus, e4]; simp only [List.length_set]; exact hs.xs,
       ⟨hs.online, hs.alive, hs.inv, hs.son, hs.prate, hs.pslot⟩, by rw [haddrY]; exact h.stx_st, by rw [haddrY]; exact h.stx_gap,
@@ -599,7 +614,7 @@ theorem hq2_listener {cfg : Cfg} {n : Net} {x y : Nat} {stx sty : NetStation} {r
   cases hst0
   have hxy : x ≠ y := Ne.symm h.yx
   have hsxx : n'.bus.seen.getD x 0 = n.bus.seen.getD x 0 := by rw [hbus]; exact seen_set_other n.bus y x now h.yx
-  refine ⟨n', c, hp, htx, hS, h.sty_st, Int.le_trans h.qtl htl, h.tto,
+  refine ⟨n', c, hp, htx, hS, h.sty_st, Int.le_trans h.qtl htl, h.tto, h.ymw,
     by rw [hset, List.getElem?_set_ne h.yx]; exact h.gx, by rw [hset, List.length_set]; exact h.xl,
     by rw [hbus]; simp only [List.length_set]; exact h.xs, h.xon, h.stx_st, h.stx_gap, h.yx,
     by rw [hbus]; exact h.split, by rw [hsxx]; exact h.rxX, by rw [hsxx]; exact h.pendX, by rw [hsxx]; exact h.headX,
@@ -615,6 +630,9 @@ structure HQ3 (cfg : Cfg) (n : Net) (x y : Nat) (stx sty : NetStation) (q lx : I
   stx_st : stx.s.st = .claimToken .scan ∨ stx.s.st = .passToken false .first
   stx_gap : stx.s.gap = .doPoll sty.s.p.address
   sty_st : sty.s.st = .listenToken none coll ∨ sty.s.st = .activeIdle none none 0
+  ymw : state = .masterWithoutToken → sty.s.st = .activeIdle none none 0 ∧ sty.s.ring.ps = stx.s.p.address ∧
+    sty.s.ring.readyForRing = true
+  tto : cfg.slot + 3 * cfg.P + cfg.ce 0 + 2 ≤ sty.s.p.tokenLostTimeout
   yx : y ≠ x
   last : ∃ dnx, n.bus.txs = dnx ++ [rpTx y stx.s.p.address sty.s.p.address state q] ∧
     (∀ o ∈ dnx, o.sender = x) ∧
@@ -774,6 +792,7 @@ theorem hq2_claimant {cfg : Cfg} {n : Net} {x y : Nat} {stx sty : NetStation} {r
       rw [← hcat, List.length_append]; omega
     refine ⟨n', inc, _, hpe', rfl, f2, .inl ⟨l1, ?_⟩⟩
     refine ⟨hsY.otherPoll x now _ hxy hbus hstn, h.sty_st, Int.le_trans h.qtl htl, h.tto,
+      (fun hm => by rw [haddr]; exact h.ymw hm),
       by rw [hstn]; exact List.getElem?_set_self h.xl, by rw [hstn, List.length_set]; exact h.xl,
       by rw [hbus]; simp only [List.length_set]; exact h.xs,
       ⟨hon, hal, hinv', by show (checkBusActivity stx.s now _).online = true; rw [f4]; exact hson,
@@ -860,7 +879,8 @@ theorem hq2_claimant {cfg : Cfg} {n : Net} {x y : Nat} {stx sty : NetStation} {r
       rcases h.stx_st with e | e <;> rw [e]
       · exact .inl rfl
       · exact .inr rfl
-    refine ⟨?_, hsY.otherPoll x now _ hxy hbus hstn, hst3, by show cR.s.gap = _; rw [k7]; exact h.stx_gap, h.sty_st, h.yx,
+    refine ⟨?_, hsY.otherPoll x now _ hxy hbus hstn, hst3, by show cR.s.gap = _; rw [k7]; exact h.stx_gap, h.sty_st,
+      (fun hm => by rw [haddr]; exact h.ymw hm), h.tto, h.yx,
       ⟨dnx, by rw [haddr, hbus]; exact htxs0, fun o ho => (hdnx o ho).1,
         fun ha => by
           show cR.s.ring.ns = _ ∧ cR.s.ring.isActive _ = true ∧ ∀ M', IsRing M' → _ → RingView M' (upSt stx cR).s.p.address cR.s.ring
